@@ -134,7 +134,18 @@ class Gen(object):
 def gen_document(r):
     cls = r.choice(['article', 'article', 'book'])
     g = Gen(r)
-    doc = {'cls': cls, 'body': g.body(), 'children': g.units(LEVELS[cls], 0, [])}
+    levels = LEVELS[cls]
+    if r.random() < 0.2:
+        levels = [('part', -1)] + levels          # \part: a unit above chapters and sections
+    doc = {'cls': cls, 'body': g.body(), 'children': g.units(levels, 0, [])}
+    front = []
+    if r.random() < 0.2:
+        front.append(['abstract', g.mk()])
+    if r.random() < 0.25:
+        front.append(['toc'])                      # repeats TITLES (tk markers), never body text
+    doc['body'] = front + doc['body']
+    if r.random() < 0.15 and doc['children']:
+        doc['appendix_before'] = r.randrange(len(doc['children']))      # \appendix before that top-level unit
     return doc
 
 
@@ -164,11 +175,17 @@ def render_body(items, out):
             out.append('\\begin{description}\\item[%s] %s\\end{description}\n' % (it[1], it[2]))
         elif k == 'quote':
             out.append('\\begin{quote}%s\\end{quote}\n\\begin{center}%s\\end{center}\n' % (it[1], it[2]))
+        elif k == 'abstract':
+            out.append('\\begin{abstract}%s abstract\\end{abstract}\n' % it[1])
+        elif k == 'toc':
+            out.append('\\tableofcontents\n')
         out.append('\n')
 
 
-def render_units(units, out):
-    for u in units:
+def render_units(units, out, appendix_before=None):
+    for j, u in enumerate(units):
+        if appendix_before is not None and j == appendix_before:
+            out.append('\\appendix\n')
         out.append('\\%s%s{%s}%s\n' % (u['kind'], '*' if u['star'] else '', u['title'],
                                        ('\\label{%s}' % u['label']) if u['label'] else ''))
         render_body(u['body'], out)
@@ -178,7 +195,7 @@ def render_units(units, out):
 def doc_source(doc):
     out = ['\\documentclass{%s}\n\\begin{document}\n' % doc['cls']]
     render_body(doc['body'], out)
-    render_units(doc['children'], out)
+    render_units(doc['children'], out, doc.get('appendix_before'))
     out.append('\\end{document}\n')
     return ''.join(out)
 
@@ -206,6 +223,8 @@ def body_markers(items):
             b.extend(it[1:3])
         elif k == 'footlist':
             b.append(it[1]); f.append(it[2]); b.append(it[3])
+        elif k == 'abstract':
+            b.append(it[1])
     return b, f
 
 
